@@ -1064,7 +1064,11 @@ class C11(Spec):
 
     def gen(self, r, tier, i):
         sweep = i % 5 == 2
-        plan = drive_engine.gen_all_algos_plan(r, tier, stateful=True, random_algos=(i % 2 == 0) or sweep)
+        if i % 10 == 9:
+            # a blotter (rows in any order) handed in as additional data and replayed: one more frame that belongs to the caller
+            plan = drive_engine.gen_replay_plan(r, tier)
+        else:
+            plan = drive_engine.gen_all_algos_plan(r, tier, stateful=True, random_algos=(i % 2 == 0) or sweep)
         if sweep and r.random() < 0.5:
             # plans recomputed under other hash seeds: make sure the process-global PRNG consumers are among them
             for _p, s in drive_engine.trees.strategies(plan["tree"]):
@@ -1290,6 +1294,8 @@ class C16(TreeSpec):
             return drive_engine.gen_bankrupt_plan(r, tier)
         if i % 16 == 6:
             return drive_tree.gen_worthless_sub_plan(r, tier)
+        if i % 16 == 14:
+            return drive_tree.gen_levered_carry_plan(r, tier)
         return drive_tree.gen_plan(r, "bankrupt" if i % 4 else "fi", tier)
 
     def run(self, bt, plan):
